@@ -7,11 +7,11 @@ package main
 
 import (
 	"crypto"
-	"crypto/ed25519"
-	"crypto/rsa"
 	"crypto/ecdsa"
+	"crypto/ed25519"
 	"crypto/elliptic"
 	"crypto/rand"
+	"crypto/rsa"
 	"crypto/sha1"
 	"crypto/tls"
 	"crypto/x509"
